@@ -69,6 +69,9 @@ type ReplicaConfig struct {
 	// state: it survives Restart and is written even by block executions that never commit.
 	// Mutually exclusive with Upgrade.
 	UpgradeManager bool
+	// ExtraApps are registered with the multiplexer in addition to the real applications
+	// (consensus-relevant: use equivalent ones on every replica), e.g. a *FaultApp.
+	ExtraApps []api.Application
 }
 
 // Replica is one ABCI application server with all real apps registered.
@@ -277,6 +280,7 @@ func (r *Replica) boot() (err error) {
 	if cfg.SanityInterval > 0 {
 		apps = append(apps, supplementarysanity.New(state, cfg.SanityInterval))
 	}
+	apps = append(apps, cfg.ExtraApps...)
 	if cfg.AppOrderSeed != 0 {
 		s := cfg.AppOrderSeed
 		for i := len(apps) - 1; i > 0; i-- {
